@@ -183,7 +183,16 @@ def monitor_sub(case, obs, k, w):
                 low = {}
                 for q, p, _ in batch:
                     low[q] = min(low.get(q, p), p)
+                if wrapped:
+                    # WrapperCache unwinds the caches that accepted the batch with Remove(seq, pos_k, MaxInt32).  With fresh
+                    # positions (what the interface is used with) that removes the batch only; a batch that re-sends positions
+                    # the sequence already holds is outside the protocol: the sequence counts as unspecified until cleared
+                    for q in low:
+                        if any(x[0] >= low[q] for x in ideal.entries(q)):
+                            ideal.dirty.add(q)
                 for q in set(before) | set(after):
+                    if q in ideal.dirty:
+                        continue
                     exp = [x for x in before.get(q, []) if not (w and q in low and x[0] < low[q] - w)]
                     if exp != after.get(q, []):
                         out.append((dict({"class": "full-changed-live-entries", "window": bool(w)}, **tag),
@@ -834,7 +843,7 @@ def run(ctx):
     if not binp:
         return
     cases = corpus_cases()
-    n = 260 if ctx.quick() else 6000
+    n = 200 if ctx.quick() else 6000
     for i in range(n):
         cases.append(gen_case(ctx.rng, nops=None if ctx.quick() else ctx.rng.randint(4, 30)))
     chunk = 400
